@@ -31,7 +31,10 @@ def step (line : String) : String :=
     match parseHist sent with
     | some hist =>
       -- the association's session echoes per destination; what comes back from each origin is what was addressed to it, in order
-      let per (k : Nat) := let q := (hist.filter (·.1 == k)).map (·.2)
+      -- (through the relay model: frame i of the history carries its index as body, relayFrames decides what arrives)
+      let idx := hist.zipIdx
+      let arrived := relayFrames (idx.map (fun ((k, _), i) => Res.ok (some ({ addr := some k, body := [i] } : Frame))))
+      let per (k : Nat) := let q := (arrived.filter (·.addr == some k)).map (fun f => (hist.getD (f.body.headD 0) (0, "?")).2)
                            if q.isEmpty then "-" else String.intercalate "," q
       per 0 ++ " | " ++ per 1 ++ " labelled=1 routed=1"
     | none => "bad-op"
